@@ -868,6 +868,36 @@ func (e *Engine) step(s *State) []*State {
 			if !ok {
 				return forks
 			}
+			if !idx.IsConst() && n <= 64 && s.heap[b.Obj].Kind == kCell {
+				// a small array of values (a dispatch table ...) indexed by a symbolic value: one state per feasible slot
+				var feas []int64
+				for k := int64(0); k < n; k++ {
+					if e.feasible(s, Eq(idx, CI(k))) {
+						feas = append(feas, k)
+					}
+				}
+				if len(feas) == 0 {
+					s.dead = true
+					return forks
+				}
+				sts := []*State{s}
+				for i := 1; i < len(feas); i++ {
+					st := s.clone()
+					sts = append(sts, st)
+					forks = append(forks, st)
+				}
+				for i, k := range feas {
+					st := sts[i]
+					st.pc = append(st.pc, Eq(idx, CI(k)))
+					p := &Ptr{Obj: b.Obj, Path: append(append([]PathElem{}, b.Path...), PathElem{Idx: CI(k)})}
+					if i == 0 {
+						set(p)
+					} else {
+						st.frames[len(st.frames)-1].locals[x] = p
+					}
+				}
+				return forks
+			}
 			set(&Ptr{Obj: b.Obj, Path: append(append([]PathElem{}, b.Path...), PathElem{Idx: idx})})
 			return forks
 		case *SliceV:
